@@ -27,20 +27,25 @@ CORE_PROPS = ['C01', 'C02', 'C03', 'C04', 'C05', 'C06', 'C08']
 
 J('A.strcpy_s.arena', CORE_PROPS, 'A', 'contracts/str/strcpy_s.spec.c',
   sources=['src/str/strcpy_s.c'], overlays={'src/str/strcpy_s.c': 'contracts/str/strcpy_s.loops'},
-  enforce='_strcpy_s_chk', functions=['_strcpy_s_chk', 'handle_error'], sliced=True,
+  enforce='_strcpy_s_chk', functions=['_strcpy_s_chk', 'handle_error'], sliced=True, fallback=('B.strcpy_s.L0', 'B.slack.strcpy_s'),
   timeout=1200, mem_gb=6,
   note='layout A: one arena, disjoint extents, both pointer orders; destbos unknown; sizes symbolic up to RSIZE_MAX_STR')
 
 J('A.strncpy_s.arena', CORE_PROPS, 'A', 'contracts/str/strncpy_s.spec.c',
   sources=['src/str/strncpy_s.c'], overlays={'src/str/strncpy_s.c': 'contracts/str/strncpy_s.loops'},
-  enforce='_strncpy_s_chk', functions=['_strncpy_s_chk', 'handle_error'], sliced=True, fallback='B.strncpy_s.L0',
+  enforce='_strncpy_s_chk', functions=['_strncpy_s_chk', 'handle_error'], sliced=True, fallback=('B.strncpy_s.L0', 'B.slack.strncpy_s'),
   timeout=1200, mem_gb=6,
   note='layout A: one arena, disjoint extents, both pointer orders; destbos/srcbos unknown; dmax, slen symbolic up to RSIZE_MAX_STR')
 J('A.strcat_s.arena', ['C01', 'C02', 'C03', 'C04', 'C05', 'C06', 'C08'], 'A', 'contracts/str/strcat_s.spec.c',
   sources=['src/str/strcat_s.c'], overlays={'src/str/strcat_s.c': 'contracts/str/strcat_s.loops'},
-  enforce='_strcat_s_chk', functions=['_strcat_s_chk', 'handle_error'], sliced=True, fallback='B.strcat_s.L0',
+  enforce='_strcat_s_chk', functions=['_strcat_s_chk', 'handle_error'], sliced=True, fallback=('B.strcat_s.L0', 'B.slack.strcat_s'),
   timeout=1200, mem_gb=6,
   note='layout A: one arena, disjoint extents, both pointer orders; object sizes unknown; arbitrary dest contents; exact concatenation result (C06) only at index 0')
+J('A.strncat_s.arena', ['C01', 'C02', 'C03', 'C04', 'C05', 'C06', 'C08'], 'A', 'contracts/str/strcat_s.spec.c', defines=['NCAT'],
+  sources=['src/str/strncat_s.c'], overlays={'src/str/strncat_s.c': 'contracts/str/strncat_s.loops'},
+  enforce='_strncat_s_chk', functions=['_strncat_s_chk', 'handle_error'], sliced=True, fallback=('B.strncat_s.L0', 'B.slack.strncat_s'),
+  timeout=1200, mem_gb=6,
+  note='layout A: one arena, disjoint extents, both pointer orders; object sizes unknown; arbitrary dest contents; 1 <= slen <= RSIZE_MAX_STR; exact concatenation result (C06) only at index 0')
 J('A.strnlen_s', ['C02', 'C10', 'C05', 'C01'], 'A', 'contracts/str/strnlen_s.spec.c',
   sources=['src/str/strnlen_s.c'], overlays={'src/str/strnlen_s.c': 'contracts/str/strnlen_s.loops'},
   enforce='_strnlen_s_chk', functions=['_strnlen_s_chk'], sliced=False, timeout=600, fallback='B.q.strnlen_s',
